@@ -1066,3 +1066,56 @@ func c14IdleExpiryLocked(x *X) {
 func init() {
 	register(&Scenario{Prop: "C14", Name: "c14/idle-expiry-while-pool-locked", Quick: []Bound{{0, 0}, {1, 0}}, Thorough: []Bound{{2, 0}}, Body: c14IdleExpiryLocked, MaxSteps: 200000, BudgetQ: 15})
 }
+
+// a connection set-up that takes long (seconds: a slow or restarting server, a stalled handshake) and then
+// succeeds: whatever the callers that waited for it were told meanwhile, every connection that was
+// opened for the Transport is one it knows about - never more than MaxConnsPerHost open connections to
+// the address afterwards, and none after Transport.Close.
+func c13SlowDial(x *X) {
+	lim := [][2]int{{1, 1}, {2, 2}, {3, 2}}[x.Choose(3)]
+	secs := []int{1, 4, 20}[x.Choose(3)] // how long the dial takes
+	nslow := 1 + x.Choose(2)             // how many dials are slow, one after the other
+	t := newTrSys(x, "C13", lim[0], lim[1])
+	var slow []*ucall
+	for k := 0; k < nslow; k++ {
+		t.n.holdDial["a"] = true
+		u := newUcall(byte(0x41+k), 0, 20, formCall)
+		slow = append(slow, u)
+		vs.GoNamed(fmt.Sprintf("caller-slow-dial%d", k), func() { u.err = t.tr.Call("a", u.method, &u.args, &u.reply); u.ret = true })
+		vs.Quiesce()
+		for i := 0; i < secs; i++ {
+			vt.Advance(time.Second)
+			vs.Quiesce()
+		}
+		t.n.holdDial["a"] = false
+		vs.Quiesce()
+		if !u.ret {
+			x.Fail("C13/call-hangs/slow-dial", "the dial to a took %d s and succeeded; the call that waited for it has not returned", secs)
+		} else if u.err == nil && !eqBytes(u.reply, u.want()) {
+			x.Fail("C14/wrong-reply", "call after a slow dial got a wrong reply")
+		}
+		t.checkLimits(fmt.Sprintf("after slow dial %d (%d s)", k, secs))
+	}
+	for i := 0; i < 2*lim[0]+1; i++ {
+		if e := t.call("a", formCall); e != nil {
+			x.Fail("C14/call-on-live-server-failed/slow-dial", "call %d after the slow dials failed with %v", i, e)
+		}
+		t.longCall("a")
+		t.checkLimits("calls after slow dials")
+	}
+	t.release()
+	if t.n.live["a"] > lim[0] {
+		x.Fail("C13/max-conns-exceeded", "%d connections to a are open after %d slow dials (%d s each), MaxConnsPerHost is %d (dialled %d)", t.n.live["a"], nslow, secs, lim[0], t.n.dials["a"])
+	}
+	t.shutdown()
+	for _, a := range []string{"a", "b"} {
+		if t.n.live[a] != 0 {
+			x.Fail("C15/close-leaves-connections", "%d connections to %q are still open after Transport.Close (%d slow dials of %d s before)", t.n.live[a], a, nslow, secs)
+		}
+	}
+	x.Outcome("lim=%v secs=%d nslow=%d errs=%s dials=%d", lim, secs, nslow, errStr(slow[0].err), t.n.dials["a"])
+}
+
+func init() {
+	register(&Scenario{Prop: "C13", Name: "c13/slow-dial", Quick: []Bound{{0, 0}, {1, 0}}, Thorough: []Bound{{2, 0}}, Body: c13SlowDial, MaxSteps: 400000, BudgetQ: 20, BudgetT: 300})
+}
